@@ -281,7 +281,8 @@ Proof.
       pose proof (total_rc_upd h id _ (Live (S rc') e k) Hn) as Ht. simpl in Ht.
       destruct (IH _ s w' I1) as (h' & E & I' & V & L & P); [lia|].
       exists h'. split; auto. split; auto. split; [|split].
-      * eapply evolves_trans; [eapply evolves_set_rc; eauto | auto].
+      * apply (evolves_trans None h (upd h id (Live (S rc') e k)) h');
+          [eapply evolves_set_rc; eauto | exact V].
       * rewrite L. apply upd_length.
       * intros. apply P. apply posb_set_rc; auto. lia.
 Qed.
